@@ -24,8 +24,10 @@ ClassForms == {"plain", "nested", "property", "property-setter", "overload", "ov
                "enum", "intenum", "enum-empty", "nested-enum", "generic", "generic-bound", "generic-constraints", "generic-variance", "protocol", "namedtuple",
                "class-attr-forms", "slots", "init-tuple-unpack", "multiple-inheritance", "private-base", "metaclass", "inner-function", "global-assign", "async-def", "decorated",
                "subscript-assign", "starred-assign", "private-foreign-base", "foreign-base-with-private-ancestors", "generic-named-like-builtin", "strenum-flag",
-               "attribute-docstrings", "redefinition", "init-conditional-attrs"}
-Reexports == {"name", "alias", "star", "module", "modalias", "absolute-name", "all-list", "type-checking-import"}
+               "attribute-docstrings", "redefinition", "init-conditional-attrs",
+               "subscripted-typing-base", "namespace-base", "enum-subscript-assign", "enum-nested-tuple-target", "variable-as-annotation"}
+Reexports == {"name", "alias", "star", "module", "modalias", "absolute-name", "all-list", "type-checking-import",
+              "modalias-and-star", "name-and-alias-of-one-declaration"}       \* one module / declaration re-exported twice by the same __init__
 Foreign == {"one-segment", "two-segment", "three-segment", "generic", "as-superclass", "typing-special"}
 ModuleCode == {"member-func-call", "member-class-use", "member-const", "type-alias", "typevar-expr", "local-import", "try-import", "conditional-def", "main-guard"}
 Docs == {"PLAINTEXT", "GOOGLE", "NUMPYDOC", "REST", "malformed-numpy", "malformed-google", "malformed-rest", "unicode", "raw-backslash",
